@@ -7,7 +7,9 @@
      APAIR <shape> <full> <PAIR observations> <str_a> <str_b> <hashrel 0|1> <a_after> <b_after>
                                                    the PAIR calls on operands that alias in memory: shape = sub:i:j:k (full[i:j] vs
                                                    full[i:k]), ovl:i:j:i2:k, same:i:j, clone:i:j, val:i:j (shared Val buffers),
-                                                   cap:i:j (b = append(full[i:j], full[0]) written into spare capacity)
+                                                   cap:i:j (b = append(full[i:j], full[0]) written into spare capacity),
+                                                   rep:ra:rb:i:j (the value full[i:j] in two Go representations: nil / empty / parsed /
+                                                   decoded / cloned name, nil / empty component values)
      TRIPLE <a> <b> <c> <ab> <bc> <ac> <ba> <cb> <ca>
      COMP <c> <d> <cmp> <eq> <bytes_c> <bytes_d>
      BYTES <a> <hex>                               Name.Bytes
@@ -124,7 +126,7 @@ let derive_alias (shape : string) (full : name) : name * name =
   match String.split_on_char ':' shape with
   | ["sub"; i; j; k] -> let i = int_of_string i in (slice full i (int_of_string j), slice full i (int_of_string k))
   | ["ovl"; i; j; i2; k] -> (slice full (int_of_string i) (int_of_string j), slice full (int_of_string i2) (int_of_string k))
-  | ["same"; i; j] | ["clone"; i; j] | ["val"; i; j] ->
+  | ["rep"; _; _; i; j] | ["same"; i; j] | ["clone"; i; j] | ["val"; i; j] ->
       let a = slice full (int_of_string i) (int_of_string j) in (a, a)
   | ["cap"; i; j] ->
       let a = slice full (int_of_string i) (int_of_string j) in (a, a @ [List.hd full])
